@@ -187,14 +187,17 @@ pub struct EncOpts {
 	pub gaps: bool,
 	/// a tile whose bytes occur inside a blob already stored in the block is addressed as a range inside that blob
 	pub nested_ranges: bool,
+	/// the block index sits right behind the header, in front of metadata and tile data (the header names every
+	/// section by offset, so any order is legal; a streaming reader likes the index first)
+	pub index_first: bool,
 }
 
 impl EncOpts {
 	pub fn random(rng: &mut Rng) -> EncOpts {
-		EncOpts { partial_blocks: rng.chance(0.6), shuffle_blocks: rng.chance(0.6), shuffle_tiles: rng.chance(0.5), dedup: rng.chance(0.5), no_meta: rng.chance(0.25), gaps: rng.chance(0.3), nested_ranges: rng.chance(0.4) }
+		EncOpts { partial_blocks: rng.chance(0.6), shuffle_blocks: rng.chance(0.6), shuffle_tiles: rng.chance(0.5), dedup: rng.chance(0.5), no_meta: rng.chance(0.25), gaps: rng.chance(0.3), nested_ranges: rng.chance(0.4), index_first: rng.chance(0.3) }
 	}
 	pub fn plain() -> EncOpts {
-		EncOpts { partial_blocks: false, shuffle_blocks: false, shuffle_tiles: false, dedup: false, no_meta: false, gaps: false, nested_ranges: false }
+		EncOpts { partial_blocks: false, shuffle_blocks: false, shuffle_tiles: false, dedup: false, no_meta: false, gaps: false, nested_ranges: false, index_first: false }
 	}
 }
 
@@ -226,6 +229,10 @@ pub fn encode(ts: &TileSet, o: &EncOpts, rng: &mut Rng) -> Vec<u8> {
 fn encode_inner(ts: &TileSet, o: &EncOpts, rng: &mut Rng) -> Vec<u8> {
 	let format = super::format_name(ts.format);
 	let mut out = vec![0u8; 66];
+	// room for the block index in front of everything else: 33 bytes per block and some slack for the compressor
+	let n_blocks = ts.tiles.keys().map(|k| (k.0, k.1 / 256, k.2 / 256)).collect::<std::collections::BTreeSet<_>>().len();
+	let slot = if o.index_first { 33 * n_blocks + 96 } else { 0 };
+	out.extend(std::iter::repeat(0u8).take(slot));
 	// metadata
 	let mut meta_range = (0u64, 0u64);
 	if !o.no_meta {
@@ -325,8 +332,14 @@ fn encode_inner(ts: &TileSet, o: &EncOpts, rng: &mut Rng) -> Vec<u8> {
 		rng.shuffle(&mut recs);
 	}
 	let bi = comp::brotli(&recs.concat());
-	let blocks_range = (out.len() as u64, bi.len() as u64);
-	out.extend_from_slice(&bi);
+	let blocks_range = if o.index_first && bi.len() <= slot {
+		out[66..66 + bi.len()].copy_from_slice(&bi);
+		(66u64, bi.len() as u64)
+	} else {
+		let r = (out.len() as u64, bi.len() as u64);
+		out.extend_from_slice(&bi);
+		r
+	};
 	// header
 	let mut h = Vec::with_capacity(66);
 	h.extend_from_slice(b"versatiles_v02");
